@@ -168,7 +168,7 @@ class Run:
                 self._absorb(r, name)
                 if on_result is not None:
                     on_result(r)
-                if "sample" in r and nsamp < max_samples:
+                if r.get("sample") is not None and nsamp < max_samples:
                     self.samples.append({"layer": name, **({"case": r["_case"]} if not isinstance(r["sample"], dict) or "case" not in r["sample"] else {}), "observed": r["sample"]})
                     nsamp += 1
             if self.time_left() < 0:
